@@ -83,7 +83,8 @@ theorem value_one_nil (ρ : Rep n R) :
   rw [parseWord_true_empty, value_nil, DMat.toMatrix_one]
 
 /-- **matrix k is the image of word k** (specification level) -/
-theorem accSpec_pairs (ρ : Rep n R) (a : Aut V) (o : AccOpts) (hL : LabelOK ρ o) :
+theorem accSpec_pairs (ρ : Rep n R) (a : Aut V) (o : AccOpts) (hp : ρ.parseSimple = true)
+    (hL : LabelOK ρ o) :
     ∀ (L : Nat) (v : V) (pairs : List (String × DMat n n R)),
       ρ.accSpec a o L v = .ok pairs →
       ∀ sM ∈ pairs, ρ.value (parseWord true sM.1) = .ok sM.2.toMatrix
@@ -99,7 +100,7 @@ theorem accSpec_pairs (ρ : Rep n R) (a : Aut V) (o : AccOpts) (hL : LabelOK ρ 
   | k + 1, v, pairs, h, sM, hsM => by
     obtain ⟨edges, parts, hadj, hF, rfl⟩ := accSpec_succ_ok h
     rw [List.mem_append] at hsM
-    rcases hsM with hz | hp
+    rcases hsM with hz | hpp
     · split_ifs at hz
       · unfold zeroPairs at hz
         split_ifs at hz
@@ -108,14 +109,15 @@ theorem accSpec_pairs (ρ : Rep n R) (a : Aut V) (o : AccOpts) (hL : LabelOK ρ 
           exact value_one_nil ρ
         · cases hz
       · cases hz
-    · rw [List.mem_flatten] at hp
-      obtain ⟨part, hpart, hin⟩ := hp
+    · rw [List.mem_flatten] at hpp
+      obtain ⟨part, hpart, hin⟩ := hpp
       obtain ⟨wl, hwl, hbody⟩ := forall₂_mem_right hF hpart
       obtain ⟨r, e, hr, he, rfl⟩ := specBody_ok hbody
       unfold extendPairs at hin
+      simp only [joinW_simple hp] at hin
       rw [List.mem_map] at hin
       obtain ⟨sM0, hsM0, rfl⟩ := hin
-      have ih := accSpec_pairs ρ a o hL k wl.1 r hr sM0 hsM0
+      have ih := accSpec_pairs ρ a o hp hL k wl.1 r hr sM0 hsM0
       have hl := hL wl.2 e he
       cases hA : o.asStart
       · simp only [Bool.false_eq_true, if_false]
@@ -157,12 +159,13 @@ theorem accSpec_withWords_irrel (ρ : Rep n R) (a : Aut V) (o : AccOpts) (b : Bo
 /-- **`accepted_pairs`**: for the model's actual output with `with_words=True` on a correct
 memo dict, word `k` evaluates to matrix `k`, entry by entry. -/
 theorem accepted_pairs (ρ : Rep n R) (a : Aut V) (L : Nat) (o : AccOpts) (v : V)
-    (memo memo' : Memo V n R) (res : AccRes n R) (hL : LabelOK ρ o) (hw : o.withWords = true)
+    (memo memo' : Memo V n R) (res : AccRes n R) (hp : ρ.parseSimple = true) (hL : LabelOK ρ o)
+    (hw : o.withWords = true)
     (hm : MemoOK ρ a o memo) (h : ρ.accepted a L o (some v) memo = .ok (res, memo')) :
     List.Forall₂ (fun s M => ρ.value (parseWord true s) = .ok (DMat.toMatrix M))
       res.words res.mats := by
   obtain ⟨⟨pairs, hs, rfl⟩, _⟩ := memo_sound ρ a L o v memo memo' res hm h
-  exact toRes_forall₂ ρ o hw pairs (accSpec_pairs ρ a o hL L v pairs hs)
+  exact toRes_forall₂ ρ o hw pairs (accSpec_pairs ρ a o hp hL L v pairs hs)
 
 /-- … and with `with_words=False` the very same list of matrices is returned (and no words):
 running with the empty memo dict and either value of `with_words` gives the same `mats`. -/
@@ -180,7 +183,8 @@ theorem accepted_mats_withWords_irrel (ρ : Rep n R) (a : Aut V) (L : Nat) (o : 
 /-- the same for the public wrapper, all choices of `start_state`/`end_state` -/
 theorem automatonAccepted_pairs (ρ : Rep n R) (a : Aut V) (L : Nat) (maxlen : Bool)
     (startState endState : Option V) (memo memo' : Memo V n R) (edgeWords : Bool)
-    (res : AccRes n R) (hL : LabelOK ρ (topOpts maxlen true endState edgeWords))
+    (res : AccRes n R) (hp : ρ.parseSimple = true)
+    (hL : LabelOK ρ (topOpts maxlen true endState edgeWords))
     (hm : MemoOK ρ a (topOpts maxlen true endState edgeWords) memo)
     (h : ρ.automatonAccepted a L maxlen true startState endState memo edgeWords =
       .ok (res, memo')) :
@@ -194,10 +198,10 @@ theorem automatonAccepted_pairs (ρ : Rep n R) (a : Aut V) (L : Nat) (maxlen : B
   | some e =>
     cases startState with
     | some s => cases hs
-    | none => exact accSpec_pairs ρ a _ hL L e pairs hs
+    | none => exact accSpec_pairs ρ a _ hp hL L e pairs hs
   | none =>
     cases startState with
-    | some s => exact accSpec_pairs ρ a _ hL L s pairs hs
+    | some s => exact accSpec_pairs ρ a _ hp hL L s pairs hs
     | none =>
       cases L with
       | zero =>
@@ -213,7 +217,7 @@ theorem automatonAccepted_pairs (ρ : Rep n R) (a : Aut V) (L : Nat) (maxlen : B
         | nil => rw [hst] at hs; cases hs
         | cons s t =>
           rw [hst] at hs
-          exact accSpec_pairs ρ a _ hL (k + 1) s pairs hs
+          exact accSpec_pairs ρ a _ hp hL (k + 1) s pairs hs
 
 end Rep
 end GT.RepW
